@@ -2005,12 +2005,13 @@ class IMAPClientCommand:
         MUST be interpreted as INBOX not as an astring.  Refer to section 5.1
         for further semantic details of mailbox names.
         """
-        # We must match the case insensitive string 'mailbox' first because
-        # our other mailbox names are case sensitive.
+        # INBOX is the one mailbox name that is case insensitive. It has to be
+        # the whole name though (`inboxes` is some other mailbox) and it may
+        # be given as a quoted string or literal too.
         #
-        mbox_name = self._p_simple_string("inbox", silent=True)
-        if mbox_name is None:
-            mbox_name = self._p_astring()
+        mbox_name = self._p_astring()
+        if mbox_name.lower() == "inbox":
+            return "inbox"
         if mbox_name != "":
             return os.path.normpath(mbox_name)
         else:
